@@ -401,4 +401,5 @@ func checkC15(c *Ctx) {
 		ru6.Check(skip == "", "no skipped record in "+c.fname(s.batch), c.where(s.batch, s.batch), "the hand-over dominates every back edge of the record loop", skip)
 	}
 	c.ruleTruncationMargin("C15-R4")
+	c.ruleHandOverHasNoDeadline("C15-R8")
 }
